@@ -97,6 +97,10 @@ type World struct {
 	// child races with the code the parent executes up to its next parked point (e.g. an
 	// RWMutex.Unlock admitting the readers that are parked at that instant).
 	GateSpawn bool
+	// PreemptOn: statement-level preemption points (vsim.Preempt, inserted by rewriter rule R9 into
+	// selected files) are scheduling decisions. Off: they cost nothing. Set by the scenario (root)
+	// before it starts the tasks that may reach such points.
+	PreemptOn bool
 }
 
 var cur *World
@@ -692,6 +696,21 @@ func (w *World) park(e *entry) any {
 		panic(Crashed{})
 	}
 	return v
+}
+
+// Preempt is a statement-level preemption point (rule R9): a task may lose the processor
+// between any two statements of a file instrumented that way, so that unsynchronised
+// sections of lock-free code interleave under the scheduler's control. A no-op outside
+// tasks and unless the scenario switched PreemptOn on.
+func Preempt(site string) {
+	w := Cur()
+	if w == nil || !w.PreemptOn {
+		return
+	}
+	if w.current() == nil {
+		return
+	}
+	w.Park("preempt", site, nil, nil)
 }
 
 // Yield is a plain scheduling point.
